@@ -1376,6 +1376,10 @@ class AV:
                 if k == "start":
                     start = v
             return it[2][0], ("idx", d, start)
+        # iterating a mapping (built by key events) is iterating its keys
+        base = _unwrap_seq(it)
+        if base[0] == "comp" and base[3] and all(x[0] in ("kv", "kadd") for x in base[3]):
+            return ("mcall", it, "keys", (), ()), None
         return it, None
 
     def _bind_loop_target(self, target, it, idx, d, fr: Frame):
